@@ -20,7 +20,7 @@ CORR_HEADER = ("From Coq Require Import ZArith QArith List String.\n"
                "Open Scope string_scope.\nOpen Scope Q_scope.\n")
 CHECK_FN = "check_sorted"
 SHARD = 20
-RULE = ("unit level: random InfrastructureInfo (1-6 stations, 0-6 three-phase mixed-sign constraints placed where they bind, "
+RULE = ("[checklist families: object reuse, interleaved instances, caller-owned data frozen/vandalised, odd ids and dtypes, mid-run JSON round trip, constraint mutations between calls, odd periods/increments, interrupted+resumed runs, second process with another hash seed, direct entry points] unit level: random InfrastructureInfo (1-6 stations, 0-6 three-phase mixed-sign constraints placed where they bind, "
         "continuous / finite-rate EVSEs, unequal voltages) x random active sessions with session_id != station_id "
         "(plenty left / between levels / nearly finished / finished) x 5 sort orders x {greedy, round robin} x "
         "{estimator on/off with random SimpleRampdown state} x {uninterrupted on/off} x increments {0.1,0.5,1}, cycling "
@@ -44,7 +44,7 @@ TRUSTED_EXTRA = ["harness/sorted_common.py: scenario generator, TestingInterface
                  "numpy semantics of np.arange / np.minimum / boolean-mask assignment / np.linalg.norm as modelled in Model/Preproc.v and Model/Sorted.v"]
 
 COMBOS = [(a, s, e, u, i) for a in ("greedy", "rr") for s in sc.SORTS for e in (False, True) for u in (False, True)
-          for i in ((0.1, 0.5, 1.0) if a == "rr" else (0.5, 0.5, 0.5))]      # greedy and round robin equally often
+          for i in ((0.1, 0.5, 1.0, 3.0, 0.3, 7.0) if a == "rr" else (0.5,) * 6)]      # greedy and round robin equally often; increments that do not divide the range
 CORPUS = os.path.join(core.ROOT, "corpus", "C07")
 
 
@@ -85,6 +85,9 @@ def gen_cases(rng, n, tier):
         scn = sc.gen_scenario(rng, tier, algo=a, sort=s, est=e, unint=u, inc=i,
                               user_bounds=rng.random() < 0.35)
         cases.append(mk_case(scn))
+    # the same inputs in a second process with another PYTHONHASHSEED
+    for k, msg in sm.hashseed_recheck(cases[len(cases) // 2:], limit=14).items():
+        cases[len(cases) // 2 + k]["hash_violation"] = msg
     return cases
 
 
@@ -103,7 +106,8 @@ def extra_streams(rng, tier):
     cases += sm.sim_stream(rng, SIMS[tier], SIM_CALLS[tier], tier, mk_case)
     seq = []
     for k in range(SEQS[tier]):
-        for scn, impl, tag in sc.run_sequence(rng, tier):
+        run = sc.run_interleaved(rng, tier) if k % 3 == 2 else sc.run_sequence(rng, tier)
+        for scn, impl, tag in run:
             seq.append(mk_case(scn, tag, impl=impl))
     return [("sim", CORR_HEADER, CHECK_FN, cases), ("seq", CORR_HEADER, CHECK_FN, seq)]
 
@@ -111,6 +115,8 @@ def extra_streams(rng, tier):
 def monitor(case):
     if case.get("sim_violation"):
         return case["sim_violation"]
+    if case.get("hash_violation"):
+        return case["hash_violation"]
     if case.get("replay_mismatch"):
         return ("a scheduler call captured inside the Simulator returned %r, but the same algorithm on the same "
                 "sessions / infrastructure through the stub interface returns %r" % (case.get("sim_out"), case["impl"]["sched"]))
@@ -139,6 +145,8 @@ def search(rng, budget_s, broken):
 
 
 def replay(w):
+    if "sim" in w.get("case", {}):
+        return sm.replay_sim(w["case"]["sim"], w["case"].get("plan"))
     if "sim" in w:
         return sm.replay_sim(w["sim"])
     scn, impl = sc.replay_with_history(w["case"])
